@@ -51,6 +51,11 @@ class IdentityDatabase(Database):
                      "(public_key, previous_token_hash, signature, content_hash, content) "
                      "VALUES(?,?,?,?,?)",
                      (public_key.key_to_bin(), previous_token_hash, signature, content_hash, content))
+        if content is not None:
+            # The token may have been stored before its content was known.
+            self.execute("UPDATE Tokens SET content = ? "
+                         "WHERE public_key = ? AND previous_token_hash = ? AND content_hash = ? AND content IS NULL",
+                         (content, public_key.key_to_bin(), previous_token_hash, content_hash))
         self.commit()
 
     def insert_metadata(self, public_key: PublicKey, metadata: Metadata) -> None:
